@@ -87,7 +87,11 @@ func runRobustLex(rc *RunCtx) *Violation {
 		useGen = true
 		rc.probe("generated lexer (built at check time)")
 	} else {
-		if p := catch(func() { def = ld.build() }); p != "" {
+		// map iteration orders inside the constructor are part of the explored space
+		simrt.ShuffleMaps = true
+		p := catch(func() { def = ld.build() })
+		simrt.ShuffleMaps = false
+		if p != "" {
 			return &Violation{Signature: "lex/" + ld.name + "/build-panic", Detail: p}
 		}
 	}
